@@ -112,6 +112,8 @@ int h_end_fault_phase(sim_thread **clients, int n, uint64_t budget_ns);
 // wait (fair phase) until *flag-returning* predicate holds or L has passed; 0 = ok
 int h_wait_until(bool (*pred)(void *), void *ctx, uint64_t limit_ns);
 void h_stuck(const char *clause, const char *what) __attribute__((noreturn));
+// optional: lets a workload name the clause when the step cap is exhausted in the fair phase
+extern const char *(*h_stepcap_clause)(void);
 // let stragglers run for a span of simulated time
 void h_settle(uint64_t ns);
 // signal 'something completed' to a main thread blocked in h_wait_until
